@@ -104,6 +104,66 @@ class ModesTaint:
         return None
 
 
+AGGREGATES = {"len", "min", "max", "sum", "set", "frozenset", "amin", "amax"}
+
+
+def _aggregate_names(fn: FuncInfo, mt: "ModesTaint") -> Set[str]:
+    """Names bound to len(M) / min(M) / max(M) ... of the requested mode tuple (also through tuple assignment)."""
+    out: Set[str] = set()
+
+    def is_agg(e: ast.AST) -> bool:
+        return isinstance(e, ast.Call) and (dotted(e.func) or "").split(".")[-1] in AGGREGATES and bool(e.args) and mt.derived(e.args[0])
+
+    for n in walk_no_nested(fn.node):
+        if isinstance(n, ast.Assign) and len(n.targets) == 1:
+            t, v = n.targets[0], n.value
+            if isinstance(t, ast.Name) and is_agg(v):
+                out.add(t.id)
+            if isinstance(t, ast.Tuple) and isinstance(v, ast.Tuple) and len(t.elts) == len(v.elts):
+                for a, b in zip(t.elts, v.elts):
+                    if isinstance(a, ast.Name) and is_agg(b):
+                        out.add(a.id)
+    return out
+
+
+def _uses_modes_directly(e: ast.AST, mt: "ModesTaint") -> bool:
+    """The expression mentions the mode tuple other than as the argument of len/min/max/sum/set(...)."""
+    parents: Dict[int, ast.AST] = {}
+    for n in ast.walk(e):
+        for c in ast.iter_child_nodes(n):
+            parents[id(c)] = n
+    for n in ast.walk(e):
+        if isinstance(n, (ast.Name, ast.Attribute)) and mt.derived(n):
+            p = parents.get(id(n))
+            if isinstance(p, ast.Attribute):
+                continue
+            if isinstance(p, ast.Call) and (dotted(p.func) or "").split(".")[-1] in AGGREGATES and n in p.args:
+                continue
+            return True
+    return False
+
+
+def _order_insensitive_test(test: ast.AST, mt: "ModesTaint", agg: Set[str]) -> bool:
+    """The test mentions the mode tuple, but only inside len/min/max/sum/set(...) or through names bound to those."""
+    mentions = False
+    parents: Dict[int, ast.AST] = {}
+    for n in ast.walk(test):
+        for c in ast.iter_child_nodes(n):
+            parents[id(c)] = n
+    for n in ast.walk(test):
+        if isinstance(n, ast.Name) and n.id in agg:
+            mentions = True
+        if isinstance(n, (ast.Name, ast.Attribute)) and mt.derived(n):
+            p = parents.get(id(n))
+            if isinstance(p, ast.Attribute):
+                continue  # instruction.modes: the Attribute node itself is visited
+            if isinstance(p, ast.Call) and (dotted(p.func) or "").split(".")[-1] in AGGREGATES and n in p.args:
+                mentions = True
+                continue
+            return False
+    return mentions
+
+
 def run(ctx: Context) -> None:
     idx = get_index(ctx.repo)
     reg = get_registry(idx)
@@ -198,6 +258,37 @@ def scan_order(ctx: Context, res, roots, rule_a: str, rule_b: str) -> Tuple[int,
                                           f"`{norm(t)}` decides by the *number* of modes that all modes are addressed and then ignores the mode "
                                           f"tuple on that branch: a permutation such as Q(2, 0, 1) is treated like Q(0, 1, 2), so outcomes / "
                                           f"reduced states come out in natural mode order", norm(n).split("\n")[0][:110])
+            # (a'') an order-insensitive test (len / min / max / sum / set of the mode tuple) that selects between a value
+            #       computed from the mode tuple and a substitute computed without it (both branches bind the same name)
+            if isinstance(n, (ast.IfExp, ast.If)):
+                agg = _aggregate_names(fn, mt)
+                if _order_insensitive_test(n.test, mt, agg):
+                    pairs: List[Tuple[ast.AST, ast.AST]] = []
+                    if isinstance(n, ast.IfExp):
+                        pairs.append((n.body, n.orelse))
+                    else:
+                        def binds(stmts):
+                            out = {}
+                            for st in stmts:
+                                if isinstance(st, ast.Assign) and len(st.targets) == 1 and isinstance(st.targets[0], ast.Name):
+                                    out[st.targets[0].id] = st.value
+                                elif isinstance(st, ast.AnnAssign) and isinstance(st.target, ast.Name) and st.value is not None:
+                                    out[st.target.id] = st.value
+                            return out
+                        b1, b2 = binds(n.body), binds(n.orelse)
+                        for k_ in sorted(set(b1) & set(b2)):
+                            pairs.append((b1[k_], b2[k_]))
+                    for e1, e2 in pairs:
+                        u1 = _uses_modes_directly(e1, mt)
+                        u2 = _uses_modes_directly(e2, mt)
+                        if u1 != u2:
+                            sub = e2 if u1 else e1
+                            key = f"{fn.qualname}|{norm(n.test)}"
+                            if not any(f.rule == rule_a and f.key == f"{rule_a}|{key}" for f in ctx.findings):
+                                ctx.violation(rule_a, key, fn.file, n.lineno,
+                                              f"`{norm(n.test)}` looks only at order-insensitive aggregates of the mode tuple (its length / smallest / largest "
+                                              f"element) and then replaces the value computed from the mode tuple by `{norm(sub)[:60]}`, which ignores the "
+                                              f"order of the modes: Q(1, 0) is treated like Q(0, 1)", norm(n).split("\n")[0][:110])
             # (b) destroyed order that is bound / passed / returned
             cand: List[Tuple[ast.AST, str]] = []
             if isinstance(n, ast.Assign):
